@@ -88,9 +88,12 @@ Fixpoint check_steps (tag : key -> N) (live cfg : list key) (d : disk)
   match steps with
   | [] => true
   | ORun now fe fl post out nrev renames :: rest =>
-      let r := autota tag live cfg d now fe fl in
+      (* a run that ended on the request-tree work budget (counter 4; the three places it can happen
+         are before any mutation) is a failed fetch for the model *)
+      let budget := out =? 4 in
+      let r := autota tag live cfg d now (if budget then FErr else fe) fl in
       keys_eqb (r_live r) (o_live post) && disk_eqb (r_disk r) post &&
-      (out_code (r_out r) =? out) && (r_nrev r =? nrev) && list_eqb (map wfile_code (r_writes r)) renames &&
+      (budget && (out_code (r_out r) =? 1) || (out_code (r_out r) =? out)) && (r_nrev r =? nrev) && list_eqb (map wfile_code (r_writes r)) renames &&
       check_steps tag (o_live post) cfg (disk_of post) (Some (d, r)) rest
   | ORollback k cfg' post :: rest =>
       match prev with
@@ -189,8 +192,10 @@ Record sstate := mk_ss {
 Definition zlookup (m : N) (l : list (N * Z)) : option Z := lookup m l.
 
 (* one run judged against the specification; returns (ok, new tracking state) *)
-Definition spec_run (ss : sstate) (pre : obs) (now : Z) (fe : fetch) (fl : faults)
-           (post : obs) (renames : list N) : bool * sstate :=
+Definition spec_run (ss : sstate) (pre : obs) (now : Z) (fe0 : fetch) (fl : faults)
+           (post : obs) (out : N) (renames : list N) : bool * sstate :=
+  (* work budget exhausted: must behave as a failed fetch (nothing changes) *)
+  let fe := if out =? 4 then FErr else fe0 in
   let cfg := ss_cfg ss in
   let T := trusted_pre cfg pre fl in
   let old_mats := mats (o_live pre) ++ kmap_mats (o_state pre) ++ mats cfg in
@@ -282,7 +287,7 @@ Fixpoint spec_steps (ss : sstate) (cur : obs) (steps : list ostep) : bool :=
   match steps with
   | [] => true
   | ORun now fe fl post out nrev renames :: rest =>
-      let '(ok, ss') := spec_run ss cur now fe fl post renames in
+      let '(ok, ss') := spec_run ss cur now fe fl post out renames in
       ok && spec_steps ss' post rest
   | ORollback k cfg' post :: rest =>
       (* the restart window itself is judged by CWindow cases; here only the tracking is updated:
